@@ -32,6 +32,9 @@ def run(ctx):
     from . import shapes
 
     ctx.each(shapes.copy_hook_rule, ctx, repo, "R17g")
+    from . import c16
+
+    ctx.each(c16.cache_refresh_rule, ctx, repo, "R17h")  # a sampled Covout recomputes everything get_outcome() reads from the sampled values
 
 
 GENERATOR_CTORS = ("np.random.default_rng", "numpy.random.default_rng", "np.random.RandomState", "np.random.Generator", "default_rng", "random.Random")
